@@ -98,8 +98,11 @@ def run(ctx):
     ]
     ctx.assumptions += ["adds < 2^31 (NoWrap)", "client contract: set_value at most once per promise; count_down arguments >= 1 summing to at most the initial count"]
     ctx.gen(["future"])
+    ctx.log("gen done")
     ctx.lake_build(["Babylon.Properties.C08"])
+    ctx.log("lake build done")
     ctx.audit("Babylon.Properties.C08")
+    ctx.log("audit done")
     if not ctx.quick:
         ctx.leanchecker(["Babylon.Future.Model", "Babylon.Properties.C08"])
     drv = ctx.driver("drv_C08")
@@ -107,7 +110,8 @@ def run(ctx):
     if exe is None:
         ctx.broke("correspondence", "harness/c08.cpp does not build against /repo", log[-800:])
         return
-    n = 1500 if ctx.quick else 20000
+    ctx.log("driver + harness built")
+    n = 1000 if ctx.quick else 20000
     if ctx.broken:
         n *= 5
     seed0 = ctx.seed * 1000003
@@ -127,6 +131,7 @@ def run(ctx):
         dist["modes"][key] = dist["modes"].get(key, 0) + len(runs)
         if not _classify(ctx, what, env, runs, True, dist, distinct, samples, base):
             break
+    ctx.log("SC lock-step pass done: %d runs" % ctx.cov["evaluations"])
     # weak-memory pass (oracle only: stale loads are not replayable against the SC model): VRT serves loads from the
     # release/acquire view model, so a weakened order in set_value / on_finish / wait_slow becomes a failing schedule
     nv = n // 2
@@ -142,6 +147,7 @@ def run(ctx):
                     dist["view"]["stale_reads"] += int(m.group(1))
         if not _classify(ctx, what, env, runs, False, dist, distinct, samples, base):
             break
+    ctx.log("view pass done")
     # documented witness of the NoWrap hypothesis (not part of pass/fail): real code from the futex word reached after
     # 2^31 - k timed-out wait_for calls
     wr = ctx.econc(exe, drv, ["wrap"], 1, 3)
